@@ -28,7 +28,7 @@ import sys
 from vlib.core import MachineryError
 
 PKG = "c19"
-RACE_ENV = {"GORACE": "halt_on_error=1 exitcode=66", "VERIF_RECORD_TIMEOUT": "60"}
+RACE_ENV = {"GORACE": "halt_on_error=1 exitcode=66", "VERIF_RECORD_TIMEOUT": "90"}
 LIB = "github.com/matrix-org/gomatrixserverlib"
 
 
